@@ -8,7 +8,7 @@ Record ccase := CC {
   k_claimed : list N;        (* run 1: rows handed out (lq.claimed events) *)
   k_finished1 : list N;      (* run 1: seeds the finisher reported (fin.finished events) *)
   k_deleted1 : list N;       (* run 1: rows deleted (lq.deleted events) *)
-  k_preprocessed : list N;   (* run 1: seeds that went through the preprocessor (seen-store written) *)
+  k_preprocessed : list N;   (* run 1: seeds that ENTERED the preprocessor (the seen-store may have been written) *)
   k_fresh1 : list N;         (* lq.db after run 1: rows with status FRESH *)
   k_claimed1 : list N;       (* lq.db after run 1: rows with status CLAIMED *)
   k_fetched2 : list N;       (* run 2: seeds whose own URL was fetched *)
